@@ -40,7 +40,7 @@ func (u *Unit) execInstr(fr *Frame, st *State, in ssa.Instruction) {
 				}
 				st.heap[key] = u.define(StoreA(arr, ref, z), "Hz")
 			})
-			fr.vals[x] = &Scalar{T: ref, Typ: x.Type()}
+			fr.vals[x] = &Scalar{T: ref, Typ: x.Type(), Allocs: &allocSet{ks: []int{u.allocs}}}
 			return
 		}
 		c := u.newCell(elem, x.Comment)
@@ -142,6 +142,36 @@ func (u *Unit) execInstr(fr *Frame, st *State, in ssa.Instruction) {
 
 	case *ssa.Store:
 		addr := u.get(fr, x.Addr)
+		// a whole-array copy between locals (`*dst = *src`, the way a composite array literal reaches its variable)
+		if ld, ok := x.Val.(*ssa.UnOp); ok && ld.Op == token.MUL {
+			if _, isArr := ld.Type().Underlying().(*types.Array); isArr {
+				src, ok1 := u.get(fr, ld.X).(*PtrV)
+				dst, ok2 := addr.(*PtrV)
+				if ok1 && ok2 && src.Cell != nil && dst.Cell != nil {
+					sp, dp := strings.Join(src.Path, "."), strings.Join(dst.Path, ".")
+					nm := map[string]Val{}
+					for k, v := range st.cells[dst.Cell] {
+						if !(k == dp || strings.HasPrefix(k, dp+".") || dp == "") {
+							nm[k] = v
+						}
+					}
+					for k, v := range st.cells[src.Cell] {
+						if k == sp || strings.HasPrefix(k, sp+".") || sp == "" {
+							rest := strings.TrimPrefix(strings.TrimPrefix(k, sp), ".")
+							nk := rest
+							if dp != "" && rest != "" {
+								nk = dp + "." + rest
+							} else if dp != "" {
+								nk = dp
+							}
+							nm[nk] = v
+						}
+					}
+					st.cells[dst.Cell] = nm
+					return
+				}
+			}
+		}
 		v := u.get(fr, x.Val)
 		if p, ok := addr.(*PtrV); ok {
 			u.storePtr(fr, st, p, v, where)
@@ -957,10 +987,10 @@ func (u *Unit) execSelect(fr *Frame, st *State, x *ssa.Select, where string) {
 	}
 	fr.vals[x] = &TupleV{Vs: vs}
 	u.event(fr, st, "select", map[string]Val{
-		"blocking": &Scalar{T: BoolLit(x.Blocking), Typ: types.Typ[types.Bool]},
-		"hasAfter": &Scalar{T: BoolLit(hasAfter), Typ: types.Typ[types.Bool]},
+		"blocking":  &Scalar{T: BoolLit(x.Blocking), Typ: types.Typ[types.Bool]},
+		"hasAfter":  &Scalar{T: BoolLit(hasAfter), Typ: types.Typ[types.Bool]},
 		"hasTicker": &Scalar{T: BoolLit(hasTicker), Typ: types.Typ[types.Bool]},
-		"hasDone":  &Scalar{T: BoolLit(hasDone), Typ: types.Typ[types.Bool]},
-		"doneCtx":  doneCtx,
-		"index":    vs[0]}, where)
+		"hasDone":   &Scalar{T: BoolLit(hasDone), Typ: types.Typ[types.Bool]},
+		"doneCtx":   doneCtx,
+		"index":     vs[0]}, where)
 }
